@@ -375,9 +375,13 @@ def case_st(draw, variant="lin", cage="no", modes=("xu", "x", "both"), cells=("o
         t = (lag + delta) * ((timesteps[1] - timesteps[0]) * dtmd)
         # the characteristic time as a user types it (a decimal literal read off a table: 0.3 for an interval of 0.1,
         # whose floating-point quotient is 2.9999999999999996) next to the exact product
-        tform = draw(st.sampled_from(["product", "product", "decimal"]))
+        # ... or copied verbatim from the 't' column of relaxation(): (ts_lag - ts_0) * dt
+        tform = draw(st.sampled_from(["product", "product", "decimal", "t-column"]))
         if tform == "decimal":
             t = round(t, 10)
+        elif tform == "t-column":
+            delta = 0.0
+            t = (timesteps[lag] - timesteps[0]) * dtmd
         case.update(lag=lag, numofq=numofq, qrange=(numofq + 0.5) * np.pi / Lmax, tdelta=delta, tform=tform,
                     t=t, cond_float=draw(st.booleans()))
     else:
@@ -1070,7 +1074,7 @@ def build_size_case(spec):
         maxcn = max(len(l_) for fr in lists for l_ in fr)
         nb = {"lists": lists, "roworder": [list(range(N)) if rng.random() < 0.5 else rng.permutation(N).tolist()
                                            for _ in range(frames)],
-              "max_neighbors": int(rng.choice([maxcn, maxcn + 1, max(maxcn, 30), 200])), "same": False,
+              "max_neighbors": int(rng.choice([maxcn, maxcn + 1, max(maxcn, 30), max(maxcn, 200)])), "same": False,
               "shape": spec["nbshape"], "sep": " "}
     case = {"d": d, "cell": cell, "pos": pos, "posw": posw, "types": types, "timesteps": timesteps, "ppp": ppp, "K": K,
             "kind": spec["kind"], "amp": spec["amp"], "mode": spec["mode"], "dtmd": spec["dtmd"], "sig": sig,
